@@ -364,3 +364,32 @@ Definition action_eqb (a b : target) : bool :=
 Definition rule_eqb (a b : irule) : bool :=
   list_eqb pmatch_eqb (ir_match a) (ir_match b) && action_eqb (ir_action a) (ir_action b).
 Definition rules_eqb : list irule -> list irule -> bool := list_eqb rule_eqb.
+
+(* ------------------------------------------------------------------ rules only ever change the mark *)
+Definition unmark (p : packet) : packet := set_mark p 0.
+Definition result_unmarked_as (p : packet) (r : result) : Prop :=
+  match r with
+  | RDone _ p' | RReturn p' | RFall p' => unmark p' = unmark p
+  | RFuel | RBadChain => True
+  end.
+Lemma go_unmark : forall cs e call,
+  (forall b q, result_unmarked_as q (call b q)) ->
+  forall rs p, result_unmarked_as p (go cs e call rs p).
+Proof.
+  intros cs e call Hc rs. induction rs as [|x rs IH]; intro p; [reflexivity|].
+  cbn [go]. destruct (matches e p (ir_match x)); [|apply IH].
+  destruct (ir_action x); try apply IH; try reflexivity.
+  - destruct (lookup cs c); [|exact I]. specialize (Hc l p).
+    destruct (call l p); try exact Hc; cbn in Hc.
+    + specialize (IH p0). destruct (go cs e call rs p0); cbn in *; congruence.
+    + specialize (IH p0). destruct (go cs e call rs p0); cbn in *; congruence.
+  - destruct (lookup cs c); [|exact I]. specialize (Hc l p). destruct (call l p); exact Hc.
+  - specialize (IH (set_mark p (apply_mark and_mask xor_mask (pk_mark p)))).
+    destruct (go cs e call rs _); cbn in *; try exact I; rewrite IH; reflexivity.
+Qed.
+Lemma run_unmark : forall f cs e rs p, result_unmarked_as p (run f cs e rs p).
+Proof.
+  induction f as [|f IH]; intros cs e rs p; [exact I|]. cbn [run]. apply go_unmark. intros b q. apply IH.
+Qed.
+Lemma run_flat_unmark : forall e rs p, result_unmarked_as p (run_flat e rs p).
+Proof. intros. unfold run_flat. apply go_unmark. intros. exact I. Qed.
